@@ -31,6 +31,13 @@ def natural : DP → List Out → Prop
   | dp, .dp c a :: rest => (c.op = .remove → a.ok = false → key c ∉ dp) ∧ natural (dpApply dp c a) rest
   | dp, .send _ _ :: rest => natural dp rest
 
+instance decNatural : (dp : DP) → (l : List Out) → Decidable (natural dp l)
+  | _, [] => isTrue trivial
+  | dp, .dp c a :: rest =>
+    have := decNatural (dpApply dp c a) rest
+    show Decidable ((c.op = .remove → a.ok = false → key c ∉ dp) ∧ natural (dpApply dp c a) rest) from inferInstance
+  | dp, .send _ _ :: rest => show Decidable (natural dp rest) from decNatural dp rest
+
 theorem dpRun_append (dp : DP) (l1 l2 : List Out) : dpRun dp (l1 ++ l2) = dpRun (dpRun dp l1) l2 := by
   induction l1 generalizing dp with
   | nil => rfl
